@@ -1,6 +1,8 @@
 //! jrv — runtime monitors for the jsonrpsee properties C01..C20 (see /verif/DESIGN.md).
+pub mod jgen;
 pub mod memsrv;
 pub mod report;
 pub mod rng;
 pub mod runner;
+pub mod sanit;
 pub mod script;
